@@ -173,14 +173,17 @@ extern "C" void harness_self_loops()  /* vf: bounds=1..7_self_loops_on_one_locat
     vf_reach("end");
 }
 
-extern "C" void harness_labels()  /* vf: bounds=label_presence_on_2_edges(select_with_1_or_2_binders,guard_incl._trivially_true_and_with_<_&&,synchronisation,assignment,probability);location_invariant/rate/urgent/committed reach=end */
+extern "C" void harness_labels()  /* vf: bounds=label_presence_on_2_edges(select_with_1_or_2_binders,guard_incl._trivially_true,constant_false_and_with_<_&&,synchronisation,assignment,probability);location_invariant/rate/urgent/committed reach=end */
 {
     MModel m; m.gdecl = GDECL; m.system = "system T;";
     MTemplate t = base_template("T", 0);
-    int sel = vf_pick("!select", 3), gd = vf_pick("!guard", 4), l0 = vf_pick("!labels_edge0", 8), l1 = vf_pick("!labels_edge1", 4), loc = vf_pick("!location_labels", 4), fl = vf_pick("!flag", 3);
+    int sel = vf_pick("!select", 3), gd = vf_pick("!guard", 7), l0 = vf_pick("!labels_edge0", 8), l1 = vf_pick("!labels_edge1", 4), loc = vf_pick("!location_labels", 4), fl = vf_pick("!flag", 3);
+#ifndef VF_TIER_THOROUGH
+    vf_assume(gd < 4 || (l1 == 0 && loc == 0 && fl == 0));   // quick tier: the constant guards with the first edge's other labels only
+#endif
     MEdge e0; e0.src = 0; e0.dst = 1;
     if (sel == 1) e0.select = "k : int[0,2]"; else if (sel == 2) e0.select = "k : int[0,2], j : int[0,1]";
-    static const char* GUARDS[] = {"", "true", "g < 10 && x >= 2", "g < 1 && h < 2 && x <= 3"};
+    static const char* GUARDS[] = {"", "true", "g < 10 && x >= 2", "g < 1 && h < 2 && x <= 3", "false", "0", "K > 5"};   // incl. guards that are constant but not true: an edge switched off
     e0.guard = GUARDS[gd];
     if (l0 & 1) e0.sync = "c!";
     if (l0 & 2) e0.assign = "h = 20, x = 0";
